@@ -89,7 +89,7 @@ def s_obstacle(tier):
     op = st.one_of(
         st.tuples(st.just("query"), st.lists(st.integers(0, 9), min_size=1, max_size=4)),
         st.tuples(st.just("query"), st.lists(st.integers(0, 9), min_size=1, max_size=4)),
-        st.tuples(st.sampled_from(["tr-obstacle", "tr-prediction", "tr-scenario"]), motion),
+        st.tuples(st.sampled_from(["tr-obstacle", "tr-prediction", "tr-scenario", "tr-trajectory"]), motion),
         st.tuples(st.just("set-trajectory"), new_traj),
         st.tuples(st.just("set-shape"), st.one_of(gg.any_shape(centered=True), gg.any_shape(centered=False))),
         st.tuples(st.just("append-state"), translation(20), st.integers(1, 3)),
@@ -144,6 +144,12 @@ def check_obstacle(r, ctx):
                         ob.translate_rotate(t, a)
                     elif kind == "tr-scenario":
                         sc.translate_rotate(t, a)
+                    elif kind == "tr-trajectory":
+                        # the lowest level: the predicted trajectory's own translate_rotate
+                        if not isinstance(ob.prediction, TrajectoryPrediction):
+                            ctx.label("op-skipped")
+                            continue
+                        ob.prediction.trajectory.translate_rotate(t, a)
                     elif ob.prediction is not None:
                         ob.prediction.translate_rotate(t, a)
                     else:
@@ -538,7 +544,7 @@ def check_light(r, ctx):
 
 FACETS = [
     Facet("dynamic-obstacle", check_obstacle, strategy=s_obstacle, quick=2000, thorough=25000,
-          rule="2-14 steps of query / translate_rotate (obstacle, prediction, containing scenario) / trajectory and "
+          rule="2-14 steps of query / translate_rotate (obstacle, prediction, its trajectory, containing scenario) / trajectory and "
                "shape setters / update_prediction / update_initial_state with max_history_length 1-4; occupancy and "
                "state at t=0..10 vs rebuilt obstacle; history list model; non-trivial = a mutation after a query"),
     Facet("static-obstacle", check_static, strategy=s_static, quick=2000, thorough=40000,
